@@ -4,6 +4,7 @@ import (
 	"rare/pkg/expressions"
 	"rare/pkg/expressions/funclib"
 	"rare/pkg/matchers"
+	"rare/pkg/verifhook"
 	"sync"
 	"sync/atomic"
 	"unsafe"
@@ -132,6 +133,7 @@ func (s *Extractor) asyncWorker(wg *sync.WaitGroup, inputBatch <-chan InputBatch
 		if !more {
 			break
 		}
+		verifhook.Point("worker.afterRecv")
 
 		var matchBatch []Match
 		for idx, str := range batch.Batch {
@@ -144,6 +146,7 @@ func (s *Extractor) asyncWorker(wg *sync.WaitGroup, inputBatch <-chan InputBatch
 			}
 		}
 		if len(matchBatch) > 0 {
+			verifhook.Point("worker.beforeSend")
 			s.readChan <- matchBatch
 		}
 	}
@@ -173,6 +176,7 @@ func New(inputBatch <-chan InputBatch, config *Config) (*Extractor, error) {
 
 	go func() {
 		wg.Wait()
+		verifhook.Point("worker.beforeCloseOut")
 		close(extractor.readChan)
 	}()
 
